@@ -22,8 +22,10 @@ package segmenter
 // Property C06: the cursor's rule state machines follow UAX #29 / UAX #14. Classes are the library's own tables
 // (class pointers are distinct constants, checked from their initialisers). The specifications below are written from
 // the rule text of the standards (regular expressions over class sequences), not from the code.
+//@ opaque inTable(t *unicode.RangeTable, r rune) bool
 //@ trusted std:unicode.Is
 //@   params rangeTab, r
+//@   ensures [membership] result == inTable(rangeTab, r)
 //@   modifies nothing
 //@ trusted std:unicodedata.LookupType
 //@   modifies nothing
@@ -113,3 +115,11 @@ package segmenter
 //@   ensures [mandatory-only-after-hard] implies(result == breakMandatory, cr.prevLine == ucd.BreakBK || cr.prevLine == ucd.BreakCR || cr.prevLine == ucd.BreakLF || cr.prevLine == ucd.BreakNL)
 //@   ensures [lb31-default] implies(result == breakEmpty, !(cr.line == ucd.BreakSP || cr.line == ucd.BreakZW) && cr.prevLine != ucd.BreakGL && cr.prevLine != ucd.BreakWJ && cr.line != ucd.BreakWJ)
 //@   modifies cr.numSequence; cr.line
+//
+// WordIterator.Next (C06, "attributeIterator walks flags"): when a word boundary is reached outside a word, the rune
+// that follows decides whether a word starts there - for every position inside the text, the last rune included.
+//@ func WordIterator.Next C06
+//@   mode int
+//@   requires [iterator] gr.attributeIterator.src != nil
+//@   assert_at call Next#1 : [word-start-detected] implies(gr.attributeIterator.pos < len(gr.attributeIterator.src.text), gr.inWord == inTable(ucd.Word, gr.attributeIterator.src.text[gr.attributeIterator.pos]))
+//@   modifies unspecified
